@@ -38,6 +38,7 @@ RULE = (
     "(model, hashed non-parameter module state) pairs reached by histories"
 )
 ASSUMPTIONS = [
+    "UNet max_stride in {2, 4, 8, 16, 32} (2 = a single down block)",
     "validity predicate as in DESIGN §3 C14 (docs/config.md): power-of-two strides, backbone output_stride = min(head strides), "
     "head strides < max_stride, stem in {None,2,4}, convs_per_block >= 2, ConvNeXt/Swin max_stride = 8*stem_patch_stride, filters_rate 2 for ConvNeXt/Swin "
     "(their stage widths double by construction)",
@@ -414,7 +415,7 @@ def enum_models(tier, wseed, counters):
     # ---- UNet
     filt_full = (4,)
     filt_extra = () if tier == "quick" else (6, 8, 12)
-    for ms in (8, 16, 32):
+    for ms in (2, 4, 8, 16, 32):  # 2: an encoder with a single down block
         for filters in filt_full + filt_extra:
             inputs = (two_inputs if tier == "quick" else full_inputs) if filters in filt_full else two_inputs
             for stem, rate, cpb, upi, mb in itertools.product((None, 2, 4), (2, 1.5), (2, 3), (True, False), (True, False)):
